@@ -3,6 +3,7 @@ package props
 import (
 	"encoding/json"
 	"fmt"
+	coraza "github.com/corazawaf/coraza/v3"
 	"os"
 	"path/filepath"
 	"reflect"
@@ -372,6 +373,7 @@ func C16(run *vf.Run) {
 	})
 	run.Logf("SecLang_MC: %d texts", len(cases))
 	c16Layout(run)
+	c16IncludeContext(run)
 	// single-argument directives: quoted or not, whatever the case of the directive name, they configure the same thing
 	{
 		prelude := "SecRule ARGS \"@rx a\" \"id:1,phase:2,pass,tag:'t',tag:'tt',tag:'t.t'\"\nSecRule ARGS \"@rx a\" \"id:10,phase:2,pass\"\n"
@@ -773,5 +775,59 @@ func c16Layout(run *vf.Run) {
 			run.Violate(vf.Violation{Signature: sig, What: fmt.Sprintf("line layout %s (long = %d bytes): %s %s || text: %s", feat, long, kind, errText, strconv.Quote(shown)),
 				Replay: map[string]any{"family": "seclang-layout", "lines": c.Lines, "ending": c.Ending, "long": long, "expected_ids": c.IDs}})
 		}
+	}
+}
+
+// c16IncludeContext: splitting a configuration across included files does not change the rules that FOLLOW the
+// Include either. A rule whose operator names a relative data file is written (a) after an Include of a file that
+// lives in another directory, (b) after the same directive written inline; in both the data file next to the
+// including file is the one that counts (a data file of the same name sits next to the included file too).
+func c16IncludeContext(run *vf.Run) {
+	base, err := os.MkdirTemp("", "verif-c16inc-")
+	if err != nil {
+		return
+	}
+	defer os.RemoveAll(base)
+	a, b := filepath.Join(base, "a"), filepath.Join(base, "b")
+	_ = os.MkdirAll(a, 0o755)
+	_ = os.MkdirAll(b, 0o755)
+	_ = os.WriteFile(filepath.Join(a, "words.data"), []byte("alpha\n"), 0o644)
+	_ = os.WriteFile(filepath.Join(b, "words.data"), []byte("beta\n"), 0o644)
+	_ = os.WriteFile(filepath.Join(b, "inc.conf"), []byte("SecAction \"id:1,phase:1,pass,nolog\"\n"), 0o644)
+	rule := "SecRule ARGS \"@pmFromFile words.data\" \"id:2,phase:1,pass,nolog\"\n"
+	_ = os.WriteFile(filepath.Join(a, "split.conf"), []byte("SecRuleEngine On\nInclude "+filepath.Join(b, "inc.conf")+"\n"+rule), 0o644)
+	_ = os.WriteFile(filepath.Join(a, "inline.conf"), []byte("SecRuleEngine On\nSecAction \"id:1,phase:1,pass,nolog\"\n"+rule), 0o644)
+	probe := func(file string) (string, error) {
+		w, err := coraza.NewWAF(coraza.NewWAFConfig().WithDirectivesFromFile(filepath.Join(a, file)))
+		if err != nil {
+			return "", err
+		}
+		defer closeAny(w)
+		out := ""
+		for _, v := range []string{"alpha", "beta"} {
+			tx := w.NewTransaction()
+			tx.AddGetRequestArgument("x", v)
+			tx.ProcessRequestHeaders()
+			fired := false
+			for _, mr := range tx.MatchedRules() {
+				if mr.Rule().ID() == 2 {
+					fired = true
+				}
+			}
+			_ = tx.Close()
+			out += fmt.Sprintf("%s:%v ", v, fired)
+		}
+		return out, nil
+	}
+	inline, e1 := probe("inline.conf")
+	split, e2 := probe("split.conf")
+	run.Eval("include-context")
+	if e1 != nil {
+		run.Inconclusive("include context: the inline form is rejected: %v", e1)
+		return
+	}
+	if e2 != nil || split != inline {
+		run.Violate(vf.Violation{Signature: "seclang:include-differs|rule-after-include", What: fmt.Sprintf("a rule with a relative data file written after an Include of a file in another directory: rule 2 behaves %q (error %v); with the included directive written inline it behaves %q", split, e2, inline),
+			Replay: map[string]any{"family": "seclang-include-context", "inline": inline, "split": split}})
 	}
 }
